@@ -35,6 +35,8 @@ class ExprBuilder:
                 continue
             for i, s in enumerate(blk.stmts):
                 if s.k == 'assign':
+                    if s.place.proj and s.place.proj[0]['k'] == 'deref':
+                        continue        # a store through the pointer held in the local, not a definition of it
                     self._defs[s.place.local].append((blk.idx, i, s, bool(s.place.proj)))
             t = blk.term
             if t.k == 'call':
